@@ -64,7 +64,7 @@ PRIMES = [2.5, 3.25, 5.125, 7.5, 11.25, 13.125, 17.5, 19.25, 23.125, 29.5,
 NAMINGS = ["u", "own", "dup", "auto", "short", "dup0", "dup1"]
 NAMINGS_SHORT = ["u", "dup", "short"]
 WRAPS = ["b", "mul", "addq", "addb", "cplx", "sqrt", "dict", "mulS", "sqrtN",
-         "xr"]
+         "xr", "rsub"]
 MAXVIOL = 3                  # violation records kept per check per case
 
 # --------------------------------------------------------------------------
@@ -555,6 +555,9 @@ def _build(p):
             e, f, u = P, (lambda v, k=k: v[k]), {k}
         elif w == "mul":
             e, f, u = 2 * P, (lambda v, k=k: operator.mul(v[k], 2)), {k}
+        elif w == "rsub":
+            # a number minus the parameter (reflected operator)
+            e, f, u = 50 - P, (lambda v, k=k: operator.sub(50, v[k])), {k}
         elif w == "mulS":
             if k not in shared_mul:
                 shared_mul[k] = 2 * P
